@@ -157,6 +157,18 @@ def check_state(job):
                     out.append((["C07"], "interpolate_value", "interpolate with per-axis param %s differs from the documented separable kernel sum" % (pm,)))
                 if not np.allclose(ggm.ravel(), Wm.T @ vm, atol=tol * max(1.0, float((np.abs(Wm.T) @ np.abs(vm)).max())), rtol=0):
                     out.append((["C07"], "gridding_value", "gridding with per-axis param %s is not the transpose of the documented interpolation weights" % (pm,)))
+        # scalar width / param given as NumPy scalars (np.int64, np.float32, ...) when the configuration has one width for all axes
+        if len(set(widths)) == 1 and float(widths[0]).is_integer() and par == params[0]:
+            gn = rs.randn(*grid) + 1j * rs.randn(*grid)
+            for wn, pn in ((np.int64(int(widths[0])), par), (np.float32(widths[0]), np.float64(par) if kern != "spline" else np.int32(par))):
+                try:
+                    yn = sp.interpolate(gn, coord, kernel=kern, width=wn, param=pn)
+                    okn = yn.shape == (2,) and np.allclose(yn, W @ gn.ravel(), atol=tol * max(1.0, float((np.abs(W) @ np.abs(gn.ravel())).max())), rtol=0)
+                except Exception as e:
+                    okn = False
+                    yn = repr(e)[:120]
+                if not okn:
+                    out.append((["C07"], "interpolate_value", "interpolate with width=%r, param=%r (NumPy scalars) differs from the documented kernel sum / raised: %s" % (wn, pn, str(yn)[:120])))
         # batch axis
         gb = rs.randn(2, *grid) + 1j * rs.randn(2, *grid)
         yb = sp.interpolate(gb, coord, kernel=kern, width=tuple(widths), param=tuple([par] * nd))
